@@ -2,6 +2,9 @@
 P = "dulwich/pack.py"
 F19 = "dulwich/protocol.py"
 BOUNDED = {
+    "C02": [
+        {"name": "c02_roundtrip", "script": "c02_roundtrip.py", "args": []},
+    ],
     "C19": [
         {"name": "stdlib_axioms:hex", "script": "stdlib_axioms.py", "args": ["hex"]},
         {"name": "c19_roundtrip", "script": "c19_roundtrip.py", "args": []},
